@@ -170,8 +170,8 @@ int rtr_bgpsec_validate_as_path(const struct rtr_bgpsec *data, struct spki_table
 	retval = RTR_BGPSEC_VALID;
 	tmp_sig = data->sigs;
 
-	for (unsigned int offset = 0, next_offset = 0; offset <= get_stream_size(s) && retval == RTR_BGPSEC_VALID;
-	     offset += next_offset) {
+	for (unsigned int offset = 0, next_offset = 0;
+	     tmp_sig && offset <= get_stream_size(s) && retval == RTR_BGPSEC_VALID; offset += next_offset) {
 		if (tmp_sig->next)
 			tmp_sig_len = tmp_sig->next->sig_len;
 		else
